@@ -111,6 +111,34 @@ func runC14(c *Ctx) {
 			}
 		}
 	}
+	// the delimiters are located by their FIRST occurrence: the builder writes key, '=', value, '|',
+	// message, and a message may itself contain '=' or '|'; a search from the end (LastIndex)
+	// moves part of the message into the value ("ge=5|at least 5 | see manual" -> bound "5|at least 5 ")
+	{
+		var bad []string
+		for _, b := range fn.Blocks {
+			for _, ins := range b.Instrs {
+				call, ok := ins.(*ssa.Call)
+				if !ok {
+					continue
+				}
+				switch n := calleeName(&call.Call); n {
+				case "strings.LastIndex", "strings.LastIndexByte", "strings.LastIndexAny":
+					sep := ""
+					if s, ok := constString(call.Call.Args[1]); ok {
+						sep = s
+					} else if k, ok := constInt(call.Call.Args[1]); ok {
+						sep = string(rune(k))
+					}
+					if sep == "|" || sep == "=" {
+						bad = append(bad, fmt.Sprintf("the delimiter %q is searched from the end (%s) at %s: a message containing that character is split in the wrong place", sep, n, p.Pos(call.Pos())))
+					}
+				}
+			}
+		}
+		c.Rule("C14-FIRST", "the key/value and message delimiters are located by their first occurrence (strings.Index), in both branches of the parser", 1)
+		c.Check(len(bad) == 0, "C14-FIRST", fnName(fn), "first-occurrence", fn.Pos(), "no search from the end", uniqJoin(bad, 2))
+	}
 	// message extraction: Slice instrs x[i+1:] whose result flows to the third result
 	nGuard := 0
 	for _, b := range fn.Blocks {
